@@ -60,7 +60,7 @@ def build(pid, log):
         have_gen = os.path.exists(gen)
         gen_sources = {'C08': ['Predicates'], 'C16': ['Junctors', 'RelationsInit'], 'C12': ['Formats', 'CxtLines', 'TableDump'], 'C01': ['Loops'],
                        'C03': ['Lindig', 'LindigLattice'], 'C05': ['Lindig', 'Getitem'], 'C04': ['Fcbo'], 'C19': ['Validate', 'FromdictRow'],
-                       'C09': ['Iterunion', 'Predicates'], 'C10': ['Annotate'], 'C06': ['SortKeys', 'Extremes'], 'C11': ['SortKeys', 'Tolist'], 'C07': ['Aggregate'], 'C18': ['Minimize'], 'C13': ['Defn', 'Unique'], 'C14': ['Derive'], 'C17': ['Derive', 'Defn'], 'C20': ['Dot'], 'C02': ['Getitem']}.get(pid, [])
+                       'C09': ['Iterunion', 'Predicates'], 'C10': ['Annotate'], 'C06': ['SortKeys', 'Extremes'], 'C11': ['SortKeys', 'Tolist'], 'C07': ['Aggregate'], 'C18': ['Minimize'], 'C13': ['Defn', 'Unique'], 'C14': ['Derive'], 'C17': ['Derive', 'Defn'], 'C20': ['Dot'], 'C02': ['Getitem'], 'C15': ['Loops']}.get(pid, [])
         bad_sources = [g for g in gen_sources if str(info['extraction'].get(g, '')).startswith('declined')]
         declined = bool(bad_sources)
         if declined:
